@@ -65,6 +65,7 @@ def make_morton(name, consts, N="2"):
                       (r"(?s)morton_pdep_mask\s*<.*?>\s*::\s*compute", "morton_pdep_compute", 0, True),
                       ("use_bmi2", "VERIF_USE_BMI2", 0),
                   ]))
+    fns.append(fn_array_at())
     fns.append(Fn("morton_at", MORTON, ["struct morton", "struct non_owning_data_t"], "at",
                   ret="OUT_VEC_PTR_T", ptypes=["IN_VEC_T"], vec_types=["IN_VEC_T"],
                   method="const MORTON_SELF_T *self", members=["m_sizes"], arrays=["m_sizes"],
